@@ -409,7 +409,10 @@ coalesceLoop:
 	for {
 		select {
 		case it2 := <-db.requestedIterations:
-			if it2.t == it.t {
+			if it2.t == it.t && it2.includeMemStore == it.includeMemStore {
+				// only iterations that read the same stores can share a scan: a
+				// scan that includes the memstore would hand memstore rows to an
+				// iteration that asked for flushed data only
 				iterations = append(iterations, it2)
 			} else {
 				iterationsForOtherTables = append(iterationsForOtherTables, it2)
